@@ -1202,6 +1202,9 @@ class PlainModel(Model):
         return None
 
     def call(self, f, args, kws, st, node):
+        # setattr(obj, 'name', value) with a constant name is obj.name = value
+        if f == ('lib', 'setattr') and len(args) == 3 and not kws and is_const(args[1]) and isinstance(args[1][1], str) and self.engine is not None:
+            return self.engine.attr_store(args[0], args[1][1], args[2], st, node)
         # helper functions of the same module are part of the code under analysis: inline them
         if f[0] == 'lib' and f[1].startswith(self.module.rel + '.'):
             ln = f[1][len(self.module.rel) + 1:]
@@ -1379,7 +1382,7 @@ def rule_W_RED(ctx, d):
     pe_args = None
     try:
         from .peval import PEval, Sym, Unknown
-        pv = PEval(d.module).run(red.node)
+        pv = PEval(red.module, cls=d.ci).run(red.node)
         if isinstance(pv, tuple) and len(pv) >= 2 and pv[0] == Sym('class') and isinstance(pv[1], tuple):
             pe_args = tuple(('state', x.key[1]) if (isinstance(x, Sym) and x.key[0] == 'state') else
                             (C(x) if isinstance(x, (int, str, bool, type(None), float)) else ('unknown', repr(x))) for x in pv[1])
